@@ -436,7 +436,12 @@ func (rr *renderer) renderList(f *fileBuf, dirs []*Dir, depth int) {
 						// blanks and a comment after the last line of a schema / enum body (a blank before '#' is required)
 						lr := &lrnd{l: l, id: d.ID, what: "bodytail"}
 						if l.ch(d.ID, "bodycomment", l.PEolComment) {
-							f.sb.WriteString(pick(lr, []string{" ", "  ", "\t"}) + "# " + genCommentText(lr))
+							sep := pick(lr, []string{" ", "  ", "\t"})
+							if code == 'S' && chance(lr, 1, 4) {
+								sep = "" // a comment may be glued to a schema (not to an enum) body
+								rr.out.Features["comment-glued-to-body"]++
+							}
+							f.sb.WriteString(sep + "# " + genCommentText(lr))
 							rr.out.Features["comment-after-body"]++
 						} else if l.ch(d.ID, "bodytrail", l.PTrail) {
 							f.sb.WriteString(pick(lr, []string{" ", "  ", "\t"}))
